@@ -285,6 +285,32 @@ func init() {
 						}
 					}
 				}
+				// the same object as a caller may hold it in memory, its date moved by fractions of a second around
+				// the instant (a parsed DER date has whole seconds; a constructed or permissively parsed one need not):
+				// "exact to the instant" - half a second before the effective date is before it
+				if i%2 == 0 {
+					for _, d := range []time.Duration{-600 * time.Millisecond, -400 * time.Millisecond, -time.Nanosecond, time.Nanosecond, 400 * time.Millisecond, 600 * time.Millisecond} {
+						o3 := o.Reparse()
+						if o3 == nil {
+							break
+						}
+						switch o3.Kind {
+						case corpus.Cert:
+							o3.Cert.NotBefore = o3.Cert.NotBefore.Add(d)
+						case corpus.CRL:
+							o3.CRL.ThisUpdate = o3.CRL.ThisUpdate.Add(d)
+						default:
+							o3.OCSP.NextUpdate = o3.OCSP.NextUpdate.Add(d)
+						}
+						for _, reg := range []lint.Registry{g, nil} {
+							if rs3, pv3, _ := o3.Lint(reg); pv3 == nil && rs3 != nil {
+								c.R.Count("evaluations", 1)
+								c.R.Count("sub_second_runs", 1)
+								c03JudgeAll(c, o3, mon.SnapOf(rs3), fmt.Sprintf("%s, date moved in memory by %v", how, d))
+							}
+						}
+					}
+				}
 				if cs.label == "extreme" {
 					c.R.Count("extreme_date_runs", 1)
 					return
